@@ -560,12 +560,8 @@ def c08_5(ck, prog):
                         if k == 'is_server':
                             srv = val
                     if srv is not False:
-                        allowv = None
-                        for k, val in ctx.env.items():
-                            if k[0] == 'v' and ctx.ex.tracked.get(k[1]) == 'allow':
-                                allowv = val
-                        okadm = allowv is not None and allowv[0] == 'call' and allowv[1] in adm \
-                            and ctx.result_known(allowv[1]) is True
+                        # some admission function answered TRUE on this path (whatever variable held it)
+                        okadm = any(ctx.result_known(cid) is True for cid in adm)
                         if not okadm:
                             ctx.report('a server-side transport becomes authenticated without an admission '
                                        'function having allowed the identity', ev['line'], key='admission')
